@@ -7,6 +7,7 @@ pub mod c04;
 pub mod c05;
 pub mod c06;
 pub mod c07;
+pub mod c12;
 pub mod c17;
 pub mod c19;
 pub mod c08;
@@ -23,6 +24,7 @@ pub fn dispatch(cfg: &Config) -> i32 {
         "C05" => c05::run(cfg),
         "C06" => c06::run(cfg),
         "C07" => c07::run(cfg),
+        "C12" => c12::run(cfg),
         "C17" => c17::run(cfg),
         "C19" => c19::run(cfg),
         "C08" => c08::run(cfg),
